@@ -337,7 +337,7 @@ macro_rules! assert_vfs_mkdir_m {
                 }
                 match $vfs.mode(&target) {
                     Ok(x) => {
-                        if x != $mode {
+                        if x & 0o7777 != $mode & 0o7777 {
                             panic_compare_msg!(
                                 "assert_vfs_mkdir_m!",
                                 "created directory mode doesn't match the target",
